@@ -37,20 +37,30 @@ SING = [
     ("x/(exp(x) - 1) + (x - 3)/(exp(x - 3) - 1) + (x + 2)/(exp(x + 2) - 1)",
      [("x", "0", "1 + (-3)/(exp(-3) - 1) + 2/(exp(2) - 1)"), ("x", "3", "3/(exp(3) - 1) + 1 + 5/(exp(5) - 1)"),
       ("x", "-2", "(-2)/(exp(-2) - 1) + (-5)/(exp(-5) - 1) + 1")]),
+    ("x/(exp(x) - 1)/tau", [("x", "0", "1/tau")]),
+    ("sin(x)/(x*(a + tau))", [("x", "0", "1/(a + tau)")]),
+    ("x/(exp(x) - 1) + a/y", [("x", "0", "1 + a/y")]),
+    ("y*sin(x)/(x*tau) + a", [("x", "0", "y/tau + a")]),
     ("1/x", []),
     ("y/(x - 1)", []),
     ("x*y + exp(-x)", []),
     ("a*x/(1 + x*x)", []),
     ("1/x + x/(exp(x) - 1)", []),
 ]
-HEADER = "parameters(a=0.5)\nstates(x=1.0, y=2.0)\n"
+HEADER = "parameters(a=0.5, tau=3.0)\nstates(x=1.0, y=2.0)\n"
+# the singular expression lives in a component that declares no states of its own
+MULTI = ('parameters("Rates", k=2.0)\nstates("Membrane", x=1.0)\nstates("Gate", y=0.5)\n'
+         'expressions("Rates")\ns = k*x/(exp(x) - 1)\n'
+         'expressions("Membrane")\ndx_dt = -s\n'
+         'expressions("Gate")\ndy_dt = s - y\n')
 
 
 def tasks(tier, seed):
     out = []
     for e, pts in SING:
         text = HEADER + f"s = {e}\ndx_dt = -s\ndy_dt = x - y\n"
-        out.append({"family": "SING", "id": text_id(text), "text": text, "opts": {"points": pts, "expr": e}})
+        out.append({"family": "SING", "id": e, "text": text, "opts": {"points": pts, "expr": e}})
+    out.append({"family": "SING", "id": "multi-component:k*x/(exp(x) - 1)", "text": MULTI, "opts": {"points": [("x", "0", "k")], "expr": "k*x/(exp(x) - 1)"}})
     if tier != "quick":
         for p in families.corpus(["lorentz.ode", "fitzhughnagumo.ode"]):
             out.append(dict(p, opts={"points": [], "expr": None}))
